@@ -1276,7 +1276,7 @@ def OP_LOOP(tape: Tape, stack: Stack, cache: dict) -> None:
 
     while bytes_to_bool(condition):
         sert(count < tape.callstack_limit, 'OP_LOOP limit exceeded')
-        run_tape(subtape, stack, cache)
+        run_tape(subtape, stack, cache, additional_flags={**tape.flags})
         if 'returned' in cache:
             return
         subtape.reset_pointer()
